@@ -26,12 +26,41 @@ from .sym import isfloat, iscomplex, EngineError, PathAbort, SArr, SymBool, SymC
 VERIF = Path(__file__).resolve().parent.parent
 
 
+class SpecUndetermined(Exception):
+    """The path condition does not decide a guard the specification depends on."""
+
+    def __init__(self, cond):
+        super().__init__(f"path does not decide spec guard {cond}")
+        self.cond = cond
+
+
 class PostCtx:
     """Context for evaluating ``ensures``: no forking allowed; spec-side divisions recorded."""
 
-    def __init__(self):
+    def __init__(self, pc=()):
         self.extra = []
         self.ghost = {}
+        self.pc = list(pc)
+        self._solver = None
+
+    def decide(self, cond):
+        """Truth value of a spec guard as decided by the real code on this path."""
+        t = sym.as_bool_term(cond)
+        c = z3.simplify(t)
+        if z3.is_true(c):
+            return True
+        if z3.is_false(c):
+            return False
+        if self._solver is None:
+            self._solver = z3.Solver()
+            self._solver.set("timeout", 5000)
+            for h in self.pc:
+                self._solver.add(h)
+        if self._solver.check(z3.Not(t)) == z3.unsat:
+            return True
+        if self._solver.check(t) == z3.unsat:
+            return False
+        raise SpecUndetermined(t)
 
     def branch(self, cond):
         c = z3.simplify(cond)
@@ -283,10 +312,31 @@ def run_job(job):
             S, inp, out = p.value
             rebound |= p.ghost.get("_rebound", set())
             res["nonzero_assumptions"] += len(p.nonzero)
-            post = PostCtx()
+            post = PostCtx(p.pc)
             sym.CUR = post
             try:
                 obligations = list(contract.ensures(S, case, inp, out))
+            except SpecUndetermined as su:
+                # the code's behaviour on this path does not depend on a condition the property
+                # depends on: refuted; both sides of the guard are replayed natively
+                full = f"{contract.prop}.{contract.name}.path_decides_spec_guard"
+                for side in (su.cond, z3.Not(su.cond)):
+                    s2 = z3.Solver()
+                    s2.set("timeout", 5000)
+                    for h in p.pc:
+                        s2.add(h)
+                    s2.add(side)
+                    if s2.check() != z3.sat:
+                        continue
+                    v = Verdict(full, "refuted", "z3", 0.0, reason=str(su))
+                    v.model = s2.model()
+                    viol = _handle_refuted(contract, case, cid, S, p, pi, list(p.pc) + [side], None, v, "path_decides_spec_guard", full, rng, timeout)
+                    res["violations"].append(viol)
+                    res["obligations"].append({"name": full, "case": cid, "path": pi, "status": "refuted", "backend": "z3", "time_s": 0.0, "strength": default_strength, "reason": str(su), "replay": viol})
+                    if viol["reproduced"]:
+                        break
+                n_obl += 1
+                continue
             finally:
                 sym.CUR = None
             hyps = list(p.pc) + post.extra
